@@ -114,11 +114,11 @@ Proof.
   induction ts as [|[i ti] tr IH]; intros bs; cbn [rec_loop]; [reflexivity|].
   unfold bind. destruct (dv ti bs) as [[v r]| | |]; try reflexivity. cbn [fst snd]. rewrite IH. reflexivity.
 Qed.
-Lemma de_fields_same rec E u lc (dv : ty -> list N -> res (val * list N)) :
+Lemma de_fields_same rec E u h lc (dv : ty -> list N -> res (val * list N)) :
   forall fs,
-  (forall i t bs v r c, In (i, t) fs -> dv t bs = Ok (v, r) -> exists c', rec u HV lc t t bs nolim c = (c', Ok (v, r))) ->
+  (forall i t bs v r c, In (i, t) fs -> dv t bs = Ok (v, r) -> exists c', rec u h lc t t bs nolim c = (c', Ok (v, r))) ->
   forall k bs vs r c, (length fs < k)%nat -> rec_loop dv fs bs = Ok (vs, r) ->
-  exists c', de_fields rec E u HV lc k fs fs bs nolim c = (c', Ok (vs, r)).
+  exists c', de_fields rec E u h lc k fs fs bs nolim c = (c', Ok (vs, r)).
 Proof.
   induction fs as [|[i t] fs IH]; intros Hr k bs vs r c Hk H; (destruct k as [|k]; [cbn in Hk; lia|]); cbn [de_fields rec_loop] in *.
   - inversion H; subst. destruct (add_cost_nolim u 4 c) as [c1 Hc1]. rewrite (bindM_ok _ _ _ _ _ _ Hc1). eexists; reflexivity.
@@ -128,7 +128,7 @@ Proof.
     destruct (add_cost_nolim u (rec_label_cost lc i) c1) as [c2 Hc2]. rewrite (bindM_ok _ _ _ _ _ _ Hc2).
     destruct (add_cost_nolim u 1 c2) as [c3 Hc3]. rewrite (bindM_ok _ _ _ _ _ _ Hc3).
     destruct (Hr i t bs v1 r1 c3 (or_introl eq_refl) E1) as [c4 H4]. rewrite (bindM_ok _ _ _ _ _ _ H4). cbn [fst snd].
-    assert (Hr' : forall i0 t0 bs0 v0 r0 c0, In (i0, t0) fs -> dv t0 bs0 = Ok (v0, r0) -> exists c', rec u HV lc t0 t0 bs0 nolim c0 = (c', Ok (v0, r0))).
+    assert (Hr' : forall i0 t0 bs0 v0 r0 c0, In (i0, t0) fs -> dv t0 bs0 = Ok (v0, r0) -> exists c', rec u h lc t0 t0 bs0 nolim c0 = (c', Ok (v0, r0))).
     { intros; eapply Hr; [right; eassumption|eassumption]. }
     destruct (IH Hr' k r1 vs2 r c4 ltac:(cbn in Hk; lia) E2) as [c5 H5]. rewrite (bindM_ok _ _ _ _ _ _ H5). cbn [fst snd]. eexists; reflexivity.
 Qed.
@@ -136,14 +136,14 @@ Qed.
 (* ---------- the main theorem ---------- *)
 (* For every environment, fuel, input and pair of expected / wire types that are the same type up to names: whenever the
    specification's M^-1 returns a value, the decoder as it is returns that value and the same remaining input. *)
-Theorem de_at_wire_type : forall f E u lc e w a bs v r c,
+Theorem de_at_wire_type_host : forall f E u h lc e w a bs v r c,
   wf_env E = true -> trace E e = Some a -> trace E w = Some a -> ty_closed E a = true ->
   dec_val f E a bs = Ok (v, r) ->
-  exists c', de f E u HV lc e w bs nolim c = (c', Ok (v, r)).
+  exists c', de f E u h lc e w bs nolim c = (c', Ok (v, r)).
 Proof.
-  induction f as [|f IH]; intros E u lc e w a bs v r c Hwf He Hw Hc H; [discriminate|].
-  assert (IHs : forall t bs v r c, ty_closed E t = true -> dec_val f E t bs = Ok (v, r) -> exists c', de f E u HV lc t t bs nolim c = (c', Ok (v, r))).
-  { intros t bs1 v1 r1 c1 Hct Hd. destruct (trace_closed E t Hwf Hct) as (a1 & Ta & Hca & _). rewrite (dec_val_trace _ _ _ _ _ Ta) in Hd. eapply IH; eassumption. }
+  induction f as [|f IH]; intros E u h lc e w a bs v r c Hwf He Hw Hc H; [discriminate|].
+  assert (IHs : forall u h lc t bs v r c, ty_closed E t = true -> dec_val f E t bs = Ok (v, r) -> exists c', de f E u h lc t t bs nolim c = (c', Ok (v, r))).
+  { intros u1 h1 lc1 t bs1 v1 r1 c1 Hct Hd. destruct (trace_closed E t Hwf Hct) as (a1 & Ta & Hca & _). rewrite (dec_val_trace _ _ _ _ _ Ta) in Hd. eapply IH; eassumption. }
   cbn [de].
   destruct (unroll_nolim u E e w a c He Hw) as [c0 Hu]. rewrite (bindM_ok _ _ _ _ _ _ Hu). clear Hu c.
   cbn [dec_val] in H. rewrite (trace_idem _ _ _ He) in H.
@@ -165,7 +165,9 @@ Proof.
     destruct bs as [|b r0]; [discriminate|]. destruct b as [|[| |]]; try discriminate.
     + inversion H; subst. done_ret.
     + unfold bind in H. destruct (dec_val f E t1 r0) as [[w0 r1]| | |] eqn:E1; try discriminate. cbn [fst snd] in H. inversion H; subst.
-      destruct (IHs t1 r0 w0 r c Hc E1) as [c2 H2]. unfold catch_sub. rewrite (bindM_ok _ _ _ _ _ _ H2). cbn [fst snd]. done_ret.
+      unfold catch_sub. destruct h.
+      * destruct (IHs u HV lc t1 r0 w0 r c Hc E1) as [c2 H2]. rewrite (bindM_ok _ _ _ _ _ _ H2). cbn [fst snd]. done_ret.
+      * destruct (IHs true HI no_names t1 r0 w0 r c Hc E1) as [c2 H2]. rewrite (bindM_ok _ _ _ _ _ _ H2). cbn [fst snd]. done_ret.
   - (* vec *) cbn [ty_closed] in Hc.
     unfold bind in H. destruct (read_u64 bs) as [[len r1]| | |] eqn:E1; try discriminate. cbn [fst snd] in H.
     destruct (max_count <? len) eqn:Em; [discriminate|]. apply N.ltb_ge in Em. rewrite max_count_val in Em.
@@ -217,19 +219,25 @@ Proof.
              all: try (destruct (add_cost_nolim u (N.of_nat (length p0)) cx) as [c2 Hc2]; rewrite (bindM_ok _ _ _ _ _ _ Hc2); eexists; reflexivity).
              all: unfold trace in Ta; cbn [trace_f] in Ta; discriminate. }
            match goal with |- exists c', bindM (rep _ _ _) _ nolim ?cc = _ => destruct (rep_follows _ _ Hstep _ _ _ _ cc E2) as [c2 H2] end. rewrite (bindM_ok _ _ _ _ _ _ H2). cbn [fst snd]. done_ret.
-        -- assert (Hstep : forall bs0 v0 r0 cx, dec_val f E t1 bs0 = Ok (v0, r0) ->
+        -- destruct h.
+           ++ assert (Hstep : forall bs0 v0 r0 cx, dec_val f E t1 bs0 = Ok (v0, r0) ->
                      exists c', (dom _ <- add_cost u 3; de f E u HV lc t1 a1 bs0) nolim cx = (c', Ok (v0, r0))).
-           { intros bs0 v0 r0 cx Hd. destruct (add_cost_nolim u 3 cx) as [c2 Hc2]. rewrite (bindM_ok _ _ _ _ _ _ Hc2).
-             rewrite Hdv in Hd. eapply IH; [exact Hwf|exact Ta|eapply trace_idem; exact Ta|exact Hca|exact Hd]. }
-           match goal with |- exists c', bindM (rep _ _ _) _ nolim ?cc = _ => destruct (rep_follows (dec_val f E t1) (fun bs0 => dom _ <- add_cost u 3; de f E u HV lc t1 a1 bs0) Hstep _ _ _ _ cc E2) as [c2 H2] end. rewrite (bindM_ok _ _ _ _ _ _ H2). cbn [fst snd]. done_ret.
+              { intros bs0 v0 r0 cx Hd. destruct (add_cost_nolim u 3 cx) as [c2 Hc2]. rewrite (bindM_ok _ _ _ _ _ _ Hc2).
+                rewrite Hdv in Hd. eapply IH; [exact Hwf|exact Ta|eapply trace_idem; exact Ta|exact Hca|exact Hd]. }
+              match goal with |- exists c', bindM (rep _ _ _) _ nolim ?cc = _ => destruct (rep_follows (dec_val f E t1) (fun bs0 => dom _ <- add_cost u 3; de f E u HV lc t1 a1 bs0) Hstep _ _ _ _ cc E2) as [c2 H2] end. rewrite (bindM_ok _ _ _ _ _ _ H2). cbn [fst snd]. done_ret.
+           ++ assert (Hstep : forall bs0 v0 r0 cx, dec_val f E t1 bs0 = Ok (v0, r0) ->
+                     exists c', (dom _ <- add_cost u 3; de f E true HI no_names a1 a1 bs0) nolim cx = (c', Ok (v0, r0))).
+              { intros bs0 v0 r0 cx Hd. destruct (add_cost_nolim u 3 cx) as [c2 Hc2]. rewrite (bindM_ok _ _ _ _ _ _ Hc2).
+                rewrite Hdv in Hd. eapply IH; [exact Hwf|eapply trace_idem; exact Ta|eapply trace_idem; exact Ta|exact Hca|exact Hd]. }
+              match goal with |- exists c', bindM (rep _ _ _) _ nolim ?cc = _ => destruct (rep_follows (dec_val f E t1) (fun bs0 => dom _ <- add_cost u 3; de f E true HI no_names a1 a1 bs0) Hstep _ _ _ _ cc E2) as [c2 H2] end. rewrite (bindM_ok _ _ _ _ _ _ H2). cbn [fst snd]. done_ret.
   - (* record *) cbn [ty_closed] in Hc. apply andb_true_iff in Hc as [Hcf Hu].
     rewrite (rec_go_loop (dec_val f E)) in H.
     unfold bind in H. destruct (rec_loop (dec_val f E) fs bs) as [[vs r2]| | |] eqn:E2; try discriminate. cbn [fst snd] in H. inversion H; subst v r. clear H.
     cost.
     match goal with |- exists c', bindM (de_fields ?rc _ _ _ _ ?k _ _ _) _ nolim ?cc = _ =>
-      assert (HR : forall i t bs0 v0 r0 cx, In (i, t) fs -> dec_val f E t bs0 = Ok (v0, r0) -> exists c', rc u HV lc t t bs0 nolim cx = (c', Ok (v0, r0)));
-      [ intros i t bs0 v0 r0 cx Hin Hd; apply IHs; [|exact Hd]; rewrite forallb_forall in Hcf; exact (Hcf (i, t) Hin)
-      | destruct (de_fields_same rc E u lc (dec_val f E) fs HR k bs vs r2 cc ltac:(lia) E2) as [c2 H2] ]
+      assert (HR : forall i t bs0 v0 r0 cx, In (i, t) fs -> dec_val f E t bs0 = Ok (v0, r0) -> exists c', rc u h lc t t bs0 nolim cx = (c', Ok (v0, r0)));
+      [ intros i t bs0 v0 r0 cx Hin Hd; destruct h; apply IHs; try exact Hd; rewrite forallb_forall in Hcf; exact (Hcf (i, t) Hin)
+      | destruct (de_fields_same rc E u h lc (dec_val f E) fs HR k bs vs r2 cc ltac:(lia) E2) as [c2 H2] ]
     end.
     rewrite (bindM_ok _ _ _ _ _ _ H2). cbn [fst snd]. done_ret.
   - (* variant *) cbn [ty_closed] in Hc. apply andb_true_iff in Hc as [Hcf Hu].
@@ -242,8 +250,9 @@ Proof.
     rewrite (uniq_find i ti fs Hu Hin).
     assert (Hct : ty_closed E ti = true) by (rewrite forallb_forall in Hcf; exact (Hcf (i, ti) Hin)).
     cost. cost.
+    destruct h; [|cost; match goal with |- exists c', bindM (de _ _ ?uu ?hh ?ll ?t _ ?bb) _ nolim ?cc = _ => destruct (IHs uu hh ll t bb w0 r2 cc Hct E2) as [c5 H5] end; rewrite (bindM_ok _ _ _ _ _ _ H5); cbn [fst snd]; done_ret].
     destruct ti as [[]| | | | | | | | |];
-      try (cost; match goal with |- exists c', bindM (de _ _ _ _ _ ?t _ ?bb) _ nolim ?cc = _ => destruct (IHs t bb w0 r2 cc Hct E2) as [c5 H5] end; rewrite (bindM_ok _ _ _ _ _ _ H5); cbn [fst snd]; done_ret).
+      try (cost; match goal with |- exists c', bindM (de _ _ ?uu ?hh ?ll ?t _ ?bb) _ nolim ?cc = _ => destruct (IHs uu hh ll t bb w0 r2 cc Hct E2) as [c5 H5] end; rewrite (bindM_ok _ _ _ _ _ _ H5); cbn [fst snd]; done_ret).
     (* the unit payload: checked structurally, decoded to null *)
     destruct f as [|f']; [discriminate|]. cbn [dec_val] in E2. unfold trace in E2. cbn [trace_f] in E2. inversion E2; subst. cost. done_ret.
   - (* func *)
@@ -255,7 +264,7 @@ Proof.
     destruct (take_bytes n r2) as [[m r3]| | |] eqn:E3; try discriminate. cbn [fst snd] in H.
     destruct (utf8_valid m) eqn:Eu; [|discriminate]. inversion H; subst v r. clear H.
     rewrite bindM_liftR. cbn [fst snd]. rewrite E2. rewrite bindM_liftR. cbn [fst snd]. rewrite E3. rewrite bindM_liftR. cbn [fst snd].
-    cost. rewrite Eu. done_ret.
+    cost. destruct h; [rewrite Eu|]; done_ret.
   - (* service *)
     assert (Hs : sub_dec_fast E (TServ ms) (TServ ms) = true) by (apply sub_dec_fast_correct; apply sub_refl).
     cost. rewrite Hs.
@@ -269,6 +278,12 @@ Proof.
     rewrite bindM_liftR. cbn [fst snd]. cost. rewrite E2. rewrite bindM_liftR. cbn [fst snd]. rewrite E3. rewrite bindM_liftR. cbn [fst snd]. done_ret.
 Qed.
 
+
+Theorem de_at_wire_type : forall f E u lc e w a bs v r c,
+  wf_env E = true -> trace E e = Some a -> trace E w = Some a -> ty_closed E a = true ->
+  dec_val f E a bs = Ok (v, r) ->
+  exists c', de f E u HV lc e w bs nolim c = (c', Ok (v, r)).
+Proof. intros. eapply de_at_wire_type_host; eassumption. Qed.
 
 (* round trip through the model of the real decoder: what M writes for v at t, the decoder reads back as v at t *)
 Theorem de_roundtrip : forall v E t out f rest u lc c,
